@@ -1236,6 +1236,10 @@ def expires_after(
     )
 
     def cache_validation_callback(metadata):
+        if "time" not in metadata:
+            # The metadata of this entry were not written (interrupted or
+            # concurrent computation) or were removed: consider it expired.
+            return False
         computation_age = time.time() - metadata["time"]
         return computation_age < delta.total_seconds()
 
